@@ -23,6 +23,9 @@ SOURCES = [
     {"cmd": "from-mnemonic", "secret": "abandon abandon abandon abandon abandon abandon abandon abandon abandon abandon abandon about", "password": "pässwörd-ユニコード-𝔘"},
     {"cmd": "from-mnemonic", "secret": "letter advice cage absurd amount doctor acoustic avoid letter advice cage above", "password": "Zq"},
     {"cmd": "from-entropy-hex", "secret": "7f" * 20, "password": ""},
+    {"cmd": "from-mnemonic", "secret": "legal winner thank year wave sausage worth useful legal winner thank yellow", "password": "xpu"},
+    {"cmd": "from-mnemonic", "secret": "legal winner thank year wave sausage worth useful legal winner thank yellow", "password": "84"},
+    {"cmd": "from-entropy-hex", "secret": "80" * 16, "password": "m/"},
     {"cmd": "from-bip39-seed", "secret": "5eb00bbddcf069084889a8ab9155568165f5c453ccb85e70811aaed6f6da5fc19a5ac40b389cd370d086206dec8aa6c43daea6690f20ad3d8d48b2d2ce9e38e4"},
     {"cmd": "from-master-xprv", "xk": ("prv", False, 44)},
     {"cmd": "from-master-xprv", "xk": ("prv", True, 44)},
@@ -60,6 +63,17 @@ def leaves(x):
     elif isinstance(x, (list, tuple)):
         for v in x:
             yield from leaves(v)
+    else:
+        yield x
+
+
+def value_leaves(x):
+    if isinstance(x, dict):
+        for v in x.values():
+            yield from value_leaves(v)
+    elif isinstance(x, (list, tuple)):
+        for v in x:
+            yield from value_leaves(v)
     else:
         yield x
 
@@ -112,8 +126,10 @@ def audit(filtered, full, src, route, raw_text=None):
         if pe:
             viols.append(V("%s:%s:leaf-decodes-as:%s" % (P, route, pe), "%s output contains %s %r" % (route, pe, l)))
             break
+    vals = list(value_leaves(filtered))
     for l in ls:
-        if isinstance(l, str) and any(l == s or (len(s) >= 16 and s in l) for s in secrets):
+        # equality with a SHORT secret is only meaningful for values (a passphrase may coincide with a schema key name)
+        if isinstance(l, str) and any((l == s and (len(s) >= 16 or l in vals)) or (len(s) >= 16 and s in l) for s in secrets):
             which = "mnemonic-or-passphrase" if l in (src.get("secret"), src.get("password")) or " " in l else "secret-leaf"
             viols.append(V("%s:%s:secret-present:%s" % (P, route, which), "%s output contains the secret string %r" % (route, l[:60])))
             break
@@ -189,7 +205,37 @@ def audit_text(text, full, src, route):
     return []
 
 
+class FilterHistories:
+    """paranoia_mode applied again and again in one process (one wallet, changing account): the last result is judged"""
+
+    def ops(self, hist):
+        return [0, 1, 2]
+
+    def run(self, hist):
+        from btc_hd_wallet.__main__ import paranoia_mode
+        src = SOURCES[0]
+        w = api_wallet(src, False)
+        viols = []
+        for n, acct in enumerate(hist):
+            full = w.generate(acct, (0, 1))
+            st, filt = attempt(paranoia_mode, w.generate(acct, (0, 1)))
+            if n == len(hist) - 1:
+                if st != "ok":
+                    viols.append(V(P + ":paranoia_mode:history:raised", "after %d earlier calls paranoia_mode raised %s" % (n, filt)))
+                else:
+                    viols = audit(filt, full, src, "paranoia_mode(history)")
+                    for v in viols:
+                        v["msg"] = "after filtering accounts %r in the same process: %s" % (hist[:-1], v["msg"])
+        return {"canon": hist, "viols": viols, "label": "violation" if viols else "filtered-ok"}
+
+
 def execute(case):
+    if "hist" in case:
+        from ..core import isolated
+        r = isolated(FilterHistories().run, case["hist"])
+        for v in r["viols"]:
+            v["case"] = case
+        return R(r["label"], viols=r["viols"])
     if case["k"] == "api":
         vs = chk_api(case["src"], case["testnet"], case["account"], case["interval"])
     else:
@@ -224,4 +270,7 @@ def run(ctx):
     cdims = dict(dims, account=[None] + ACCOUNTS, interval=[[0, 1], None] + INTERVALS[1:], file=[False, True])
     cvecs = ball(cdims, 2 if ctx.thorough else 1)
     ctx.product("cli-paranoia", [dict(v, k="cli") for v in cvecs], execute, chunk=1)
+    from ..bfs import bfs, eviction_probe
+    bfs(ctx, "filter-call-histories", FilterHistories(), 3 if ctx.thorough else 2, chunk=1)
+    eviction_probe(ctx, "filter-call-histories+account-revisits", FilterHistories(), lambda i: i, sizes=(1, 2, 3, 4, 5) + ((8, 9) if ctx.thorough else ()), chunk=1)
     return {"deviation_bound_api": None if ctx.thorough else 2, "deviation_bound_cli": 2 if ctx.thorough else 1}
